@@ -21,7 +21,9 @@ T_RelStart == /\ IsEvent("RelStart") /\ E.id \in held
 T_RelEnd == IsEvent("RelEnd") /\ E.cleared /\ ~E.panic /\ UNCHANGED <<held, texts>>
 \* a second release of the same name, or a release of nil: harmless
 T_Rel2 == IsEvent("Rel2") /\ ~E.panic /\ UNCHANGED <<held, texts>>
-Next == T_Reset \/ T_AcqEnd \/ T_RelStart \/ T_RelEnd \/ T_Rel2
+\* summary of an untraced stress run (the harness kept the set of held ids): no id was handed to a second holder
+T_Stress == IsEvent("Stress") /\ E.dups = 0 /\ E.ops > 0 /\ UNCHANGED <<held, texts>>
+Next == T_Reset \/ T_AcqEnd \/ T_RelStart \/ T_RelEnd \/ T_Rel2 \/ T_Stress
 Spec == Init /\ [][Next]_vars
 HW == HWOf(l)
 =============================================================================
